@@ -94,10 +94,13 @@ type parsedItem struct {
 }
 
 var (
-	reAddrLine = regexp.MustCompile(`^; \$([0-9a-fA-F]{6})$`)
-	reInsTail  = regexp.MustCompile(` ; \$([0-9a-fA-F]{6})  ((?:[0-9a-fA-F]{2})(?: [0-9a-fA-F]{2})*)`)
-	reHexTok   = regexp.MustCompile(`0x([0-9a-fA-F]{2}),`)
-	reDbTok    = regexp.MustCompile(`^\$([0-9a-fA-F]{2})$`)
+	// tolerant of spacing, letter case and $ / 0x prefixes: the property fixes what a line
+	// shows, not its typography
+	reAddrLine = regexp.MustCompile(`^;\s*(?:\$|0x)?([0-9a-fA-F]{6})$`)
+	reInsTail  = regexp.MustCompile(`;\s*(?:\$|0x)?([0-9a-fA-F]{6})[:\s]\s*((?:[0-9a-fA-F]{2})(?:[ \t]+[0-9a-fA-F]{2})*)(?:[ \t]|$)`)
+	reHexTok   = regexp.MustCompile(`(?:0x|\$)([0-9a-fA-F]{2})\s*,`)
+	reDbTok    = regexp.MustCompile(`^(?:\$|0x)?([0-9a-fA-F]{2})$`)
+	reDbLine   = regexp.MustCompile(`^\.?(?:db|byte|dcb)(?:\s+|$)`)
 )
 
 func parseTextListing(txt string) ([]parsedItem, error) {
@@ -110,22 +113,27 @@ func parseTextListing(txt string) ([]parsedItem, error) {
 	for ln, line := range lines {
 		trim := strings.TrimLeft(line, " \t")
 		switch {
-		case strings.HasPrefix(line, "base $"):
-			v, err := strconv.ParseUint(strings.TrimSpace(line[6:]), 16, 32)
+		case strings.HasPrefix(strings.ToLower(line), "base ") || strings.HasPrefix(strings.ToLower(line), "org "):
+			f := strings.Fields(line)
+			arg := ""
+			if len(f) > 1 {
+				arg = strings.TrimPrefix(strings.TrimPrefix(f[1], "$"), "0x")
+			}
+			v, err := strconv.ParseUint(arg, 16, 32)
 			if err != nil {
 				return nil, fmt.Errorf("line %d: bad base directive %q", ln, line)
 			}
 			items = append(items, parsedItem{Kind: "base", Addr: uint32(v), Line: ln})
 		case line != "" && line[0] != ' ' && line[0] != '\t' && line[0] != '!' && strings.HasSuffix(line, ":"):
 			items = append(items, parsedItem{Kind: "label", Text: line[:len(line)-1], Line: ln})
-		case strings.HasPrefix(trim, "db ") || trim == "db":
+		case reDbLine.MatchString(strings.ToLower(trim)):
 			if pendingAddr < 0 {
 				return nil, fmt.Errorf("line %d: data line %q without a preceding address line", ln, line)
 			}
 			var b []byte
-			payload := strings.TrimSpace(strings.TrimPrefix(trim, "db"))
+			payload := strings.TrimSpace(reDbLine.ReplaceAllString(strings.ToLower(trim), ""))
 			if payload != "" {
-				for _, t := range strings.Split(payload, ",") {
+				for _, t := range strings.FieldsFunc(payload, func(r rune) bool { return r == ',' || r == ' ' || r == '\t' }) {
 					m := reDbTok.FindStringSubmatch(strings.TrimSpace(t))
 					if m == nil {
 						return nil, fmt.Errorf("line %d: bad data token %q in %q", ln, t, line)
@@ -153,7 +161,7 @@ func parseTextListing(txt string) ([]parsedItem, error) {
 			m := ms[len(ms)-1]
 			v, _ := strconv.ParseUint(m[1], 16, 32)
 			var b []byte
-			for _, t := range strings.Split(m[2], " ") {
+			for _, t := range strings.Fields(m[2]) {
 				x, _ := strconv.ParseUint(t, 16, 8)
 				b = append(b, byte(x))
 			}
